@@ -136,6 +136,14 @@ pub fn run(r: &mut Runner) -> &'static str {
     r.assumptions.push("conditioned on acceptance by the implementation (C01 owns acceptance)".into());
     let n = r.n(250_000, 6_000_000);
     r.random("c15.views", n, 200, &gen_case, &judge);
+    // the same check over chains of related inputs judged back to back on one thread (history independence)
+    let n = r.n(30000, 800000);
+    r.random("c15.chains", n, 260, &|t| crate::gen::gen_chain(t, &gen_case), &|c: &crate::engine::Chain, st: &mut Stats| {
+        for x in &c.0 {
+            judge(x, st)?;
+        }
+        Ok(())
+    });
     // every UNKNOWN tail over a small alphabet up to 6 symbols
     let alpha: &[&[u8]] = &[b" ", b"a", b"\n", b"\xc3\xa9", b"T"];
     let k = if r.quick() { 6 } else { 8 };
